@@ -59,7 +59,8 @@ static mut OBS: usize = 0;
 static mut ENV_WHEN: usize = 0;
 
 /// the pending select-coroutine action runs to completion here (real code), at most once, at observation point
-/// ENV_WHEN (0: before the first pop, 1: before the re-check pop, 2: while parked). The point is CONCRETE per
+/// ENV_WHEN (0: before the first pop, 1: right after the first pop found nothing, 2: before the re-check pop, 3: right
+/// after the re-check pop found nothing, 4: while parked). The point is CONCRETE per
 /// harness: CBMC runs out of memory when the event (a heap object holding a coroutine) exists only symbolically.
 fn env_step() {
     unsafe {
@@ -125,6 +126,7 @@ fn poll_is_woken_by_the_event<const WHEN: usize>() {
         ENV_PENDING = 1;
         ENV_WHEN = WHEN;
         sup::ON_Q_POP = Some(env_step);
+        sup::ON_Q_POP_NONE = Some(env_step);
     }
     let r = cq.poll(None);
     // poll returned
@@ -166,7 +168,7 @@ fn c16_1a_poll_is_woken_by_the_event_0() {
 //@ kind: K3
 //@ complete: yes
 //@ functions: Cqueue::poll, EventSender::subscribe, Event::continue_bottom
-//@ statement: poll(None) with one select coroutine alive whose send reaches subscribe [between the poller's registration and its re-check]: the poller never parks unregistered or with the event already queued; poll returns
+//@ statement: poll(None) with one select coroutine alive whose send reaches subscribe [right after the poller's first look found nothing]: the poller never parks unregistered or with the event already queued; poll returns
 //@ statement: exactly that event (token, extra), and at that moment its bottom half has been started exactly once (the coroutine inside the event
 //@ statement: was handed to run_coroutine once and removed from the event)
 #[kani::proof]
@@ -187,7 +189,7 @@ fn c16_1a_poll_is_woken_by_the_event_1() {
 //@ kind: K3
 //@ complete: yes
 //@ functions: Cqueue::poll, EventSender::subscribe, Event::continue_bottom
-//@ statement: poll(None) with one select coroutine alive whose send reaches subscribe [while the poller is parked]: the poller never parks unregistered or with the event already queued; poll returns
+//@ statement: poll(None) with one select coroutine alive whose send reaches subscribe [between the poller's registration and its re-check]: the poller never parks unregistered or with the event already queued; poll returns
 //@ statement: exactly that event (token, extra), and at that moment its bottom half has been started exactly once (the coroutine inside the event
 //@ statement: was handed to run_coroutine once and removed from the event)
 #[kani::proof]
@@ -204,6 +206,48 @@ fn c16_1a_poll_is_woken_by_the_event_2() {
     poll_is_woken_by_the_event::<2>();
 }
 
+//@ obligation: C16.1.3
+//@ kind: K3
+//@ complete: yes
+//@ functions: Cqueue::poll, EventSender::subscribe, Event::continue_bottom
+//@ statement: poll(None) with one select coroutine alive whose send reaches subscribe [right after the re-check found nothing, before the poller parks]: the poller never parks unregistered or with the event already queued; poll returns
+//@ statement: exactly that event (token, extra), and at that moment its bottom half has been started exactly once (the coroutine inside the event
+//@ statement: was handed to run_coroutine once and removed from the event)
+#[kani::proof]
+#[kani::stub(crate::scheduler::get_scheduler, sup::get_scheduler_stub)]
+#[kani::stub(<crate::park::Park as std::ops::Drop>::drop, sup::park_drop_noop)]
+#[kani::stub(may_queue::mpsc::Queue::push, sup::mq_push_stub)]
+#[kani::stub(may_queue::mpsc::Queue::pop, sup::mq_pop_stub)]
+#[kani::stub(crate::sync::blocking::Blocker::park, park_stub)]
+#[kani::stub(crate::sync::blocking::Blocker::unpark, unpark_stub)]
+#[kani::stub(crate::coroutine_impl::run_coroutine, sup::run_coroutine_stub)]
+#[kani::stub(crate::cqueue::Cqueue::check_panic, check_panic_stub)]
+#[kani::unwind(3)]
+fn c16_1a_poll_is_woken_by_the_event_3() {
+    poll_is_woken_by_the_event::<3>();
+}
+
+//@ obligation: C16.1.4
+//@ kind: K3
+//@ complete: yes
+//@ functions: Cqueue::poll, EventSender::subscribe, Event::continue_bottom
+//@ statement: poll(None) with one select coroutine alive whose send reaches subscribe [while the poller is parked]: the poller never parks unregistered or with the event already queued; poll returns
+//@ statement: exactly that event (token, extra), and at that moment its bottom half has been started exactly once (the coroutine inside the event
+//@ statement: was handed to run_coroutine once and removed from the event)
+#[kani::proof]
+#[kani::stub(crate::scheduler::get_scheduler, sup::get_scheduler_stub)]
+#[kani::stub(<crate::park::Park as std::ops::Drop>::drop, sup::park_drop_noop)]
+#[kani::stub(may_queue::mpsc::Queue::push, sup::mq_push_stub)]
+#[kani::stub(may_queue::mpsc::Queue::pop, sup::mq_pop_stub)]
+#[kani::stub(crate::sync::blocking::Blocker::park, park_stub)]
+#[kani::stub(crate::sync::blocking::Blocker::unpark, unpark_stub)]
+#[kani::stub(crate::coroutine_impl::run_coroutine, sup::run_coroutine_stub)]
+#[kani::stub(crate::cqueue::Cqueue::check_panic, check_panic_stub)]
+#[kani::unwind(3)]
+fn c16_1a_poll_is_woken_by_the_event_4() {
+    poll_is_woken_by_the_event::<4>();
+}
+
 
 fn poll_sees_the_last_selector_end<const WHEN: usize>() {
     sup::gq_reset();
@@ -214,6 +258,7 @@ fn poll_sees_the_last_selector_end<const WHEN: usize>() {
         ENV_PENDING = 2;
         ENV_WHEN = WHEN;
         sup::ON_Q_POP = Some(env_step);
+        sup::ON_Q_POP_NONE = Some(env_step);
     }
     let r = cq.poll(None);
     assert!(unsafe { ENV_DONE }, "[C16.1-no-finished-while-alive] poll reported Finished although a select coroutine is still alive");
@@ -250,6 +295,27 @@ fn c16_1b_poll_sees_the_last_selector_end_0() {
 }
 
 //@ obligation: C16.1b.1
+//@ kind: K3
+//@ complete: yes
+//@ functions: Cqueue::poll, EventSender::drop
+//@ statement: poll(None) with the LAST select coroutine ending (EventSender dropped: Done event, counter, wake-up) [right after the poller's first look found nothing]: the
+//@ statement: poller never sleeps through it; the Done event is not returned to the caller but triggers check_panic for that selector exactly once,
+//@ statement: and poll reports Finished only with the counter at zero
+#[kani::proof]
+#[kani::stub(crate::scheduler::get_scheduler, sup::get_scheduler_stub)]
+#[kani::stub(<crate::park::Park as std::ops::Drop>::drop, sup::park_drop_noop)]
+#[kani::stub(may_queue::mpsc::Queue::push, sup::mq_push_stub)]
+#[kani::stub(may_queue::mpsc::Queue::pop, sup::mq_pop_stub)]
+#[kani::stub(crate::sync::blocking::Blocker::park, park_stub)]
+#[kani::stub(crate::sync::blocking::Blocker::unpark, unpark_stub)]
+#[kani::stub(crate::coroutine_impl::run_coroutine, sup::run_coroutine_stub)]
+#[kani::stub(crate::cqueue::Cqueue::check_panic, check_panic_stub)]
+#[kani::unwind(4)]
+fn c16_1b_poll_sees_the_last_selector_end_1() {
+    poll_sees_the_last_selector_end::<1>();
+}
+
+//@ obligation: C16.1b.2
 //@ mem: 30
 //@ timeout: 900
 //@ kind: K3
@@ -268,11 +334,32 @@ fn c16_1b_poll_sees_the_last_selector_end_0() {
 #[kani::stub(crate::coroutine_impl::run_coroutine, sup::run_coroutine_stub)]
 #[kani::stub(crate::cqueue::Cqueue::check_panic, check_panic_stub)]
 #[kani::unwind(4)]
-fn c16_1b_poll_sees_the_last_selector_end_1() {
-    poll_sees_the_last_selector_end::<1>();
+fn c16_1b_poll_sees_the_last_selector_end_2() {
+    poll_sees_the_last_selector_end::<2>();
 }
 
-//@ obligation: C16.1b.2
+//@ obligation: C16.1b.3
+//@ kind: K3
+//@ complete: yes
+//@ functions: Cqueue::poll, EventSender::drop
+//@ statement: poll(None) with the LAST select coroutine ending (EventSender dropped: Done event, counter, wake-up) [right after the re-check found nothing, before the poller parks]: the
+//@ statement: poller never sleeps through it; the Done event is not returned to the caller but triggers check_panic for that selector exactly once,
+//@ statement: and poll reports Finished only with the counter at zero
+#[kani::proof]
+#[kani::stub(crate::scheduler::get_scheduler, sup::get_scheduler_stub)]
+#[kani::stub(<crate::park::Park as std::ops::Drop>::drop, sup::park_drop_noop)]
+#[kani::stub(may_queue::mpsc::Queue::push, sup::mq_push_stub)]
+#[kani::stub(may_queue::mpsc::Queue::pop, sup::mq_pop_stub)]
+#[kani::stub(crate::sync::blocking::Blocker::park, park_stub)]
+#[kani::stub(crate::sync::blocking::Blocker::unpark, unpark_stub)]
+#[kani::stub(crate::coroutine_impl::run_coroutine, sup::run_coroutine_stub)]
+#[kani::stub(crate::cqueue::Cqueue::check_panic, check_panic_stub)]
+#[kani::unwind(4)]
+fn c16_1b_poll_sees_the_last_selector_end_3() {
+    poll_sees_the_last_selector_end::<3>();
+}
+
+//@ obligation: C16.1b.4
 //@ kind: K3
 //@ complete: yes
 //@ functions: Cqueue::poll, EventSender::drop
@@ -289,8 +376,8 @@ fn c16_1b_poll_sees_the_last_selector_end_1() {
 #[kani::stub(crate::coroutine_impl::run_coroutine, sup::run_coroutine_stub)]
 #[kani::stub(crate::cqueue::Cqueue::check_panic, check_panic_stub)]
 #[kani::unwind(4)]
-fn c16_1b_poll_sees_the_last_selector_end_2() {
-    poll_sees_the_last_selector_end::<2>();
+fn c16_1b_poll_sees_the_last_selector_end_4() {
+    poll_sees_the_last_selector_end::<4>();
 }
 
 
@@ -360,8 +447,9 @@ fn c16_canary() {
     let cq = mk_cqueue(1);
     unsafe {
         ENV_PENDING = 1;
-        ENV_WHEN = 2;
+        ENV_WHEN = 4;
         sup::ON_Q_POP = Some(env_step);
+        sup::ON_Q_POP_NONE = Some(env_step);
     }
     let r = cq.poll(None);
     std::mem::forget(r);
